@@ -127,6 +127,7 @@ class Program:
     enum_attr_groups: Optional[List[List[str]]] = None
     tags: List[str] = field(default_factory=list)           # free-form labels (corpus axes)
     inner: Optional['Program'] = None   # a second derived enum of the same group (nested inside a transparent variant)
+    attr_layout: str = 'joined'         # joined: one #[strum(a, b)]; split: one attribute per item; split_rev: the same in reverse order
     kani_rust: str = ''                 # #[cfg(kani)] child module text (harnesses on the real derives)
     extra_rust: str = ''                # rustc-level obligations (type-level clauses) placed after the enum
 
@@ -180,6 +181,18 @@ class Program:
             s += ' = ' + v.disc
         return s
 
+    def _layout(self, items, keep_order=False):
+        if not items:
+            return []
+        if self.attr_layout == 'joined':
+            return [items]
+        if self.attr_layout == 'split':
+            return [[i] for i in items]
+        # split_rev: flags first, naming items keep their relative order (the order of serialize literals is part of the program)
+        naming = [i for i in items if i.startswith(('serialize', 'to_string'))]
+        other = [i for i in items if not i.startswith(('serialize', 'to_string'))]
+        return [[i] for i in reversed(other)] + [naming] if naming else [[i] for i in reversed(other)]
+
     def rust_source(self):
         """The program as compiled by rustc: derives + every strum attribute."""
         out = []
@@ -190,8 +203,7 @@ class Program:
             out.append('#[repr(%s)]' % self.repr)
         groups = self.enum_attr_groups
         if groups is None:
-            items = self.enum_strum_items()
-            groups = [items] if items else []
+            groups = self._layout(self.enum_strum_items(), keep_order=True)
         for g in groups:
             out.append('#[strum(%s)]' % ', '.join(g))
         for d in self.disc_attrs:
@@ -202,8 +214,7 @@ class Program:
                 out.append('    #[doc = %s]' % rs_str(d))
             groups = v.attr_groups
             if groups is None:
-                items = v.strum_items()
-                groups = [items] if items else []
+                groups = self._layout(v.strum_items())
             for g in groups:
                 out.append('    #[strum(%s)]' % ', '.join(g))
             for a in v.extra_attrs:
